@@ -92,6 +92,17 @@ def probe_known():
     part.case("probe:dsif_bare", True, labels=["known_finding_probe"])
     if key:
         part.fail("dsif_bare_condition:" + key.split(":")[0] + ":" + key.split(":")[1], dict(inputs=ci, script=facts["script"], ir=repr(ir)), what)
+    # product of four Number factors: DECIMAL scale 40
+    ci = dict(structs={"DS_1": nn}, family="num", rows={"DS_1": [{"Id_1": "1", "Me_1": "1.5"}, {"Id_1": "2", "Me_1": "2"}]})
+    m = ("comp", "Me_1")
+    ir = ("clause", "calc", ("ds", "DS_1"), [("Me_2", "M", ("bin", "*", ("bin", "*", m, m), ("bin", "*", m, m)))])
+    try:
+        key, what, facts = diffrun.run_case(ci, ir)
+    except Exception:   # IR shape not supported by this helper: build the script by hand
+        key, what, facts = diffrun.run_case(ci, ("ds", "DS_1"), script="R <- DS_1 [calc Me_2 := Me_1 * Me_1 * Me_1 * Me_1];")
+    part.case("probe:number_product_scale", True, labels=["known_finding_probe"])
+    if key:
+        part.fail("number_product_scale:" + ":".join(key.split(":")[:2]), dict(inputs=ci, script=facts["script"], ir=repr(ir)), what)
     return part
 
 
@@ -105,6 +116,7 @@ def run(ctx, modes=("dataset", "component"), pid="C01"):
     ctx.merge(core.pmap("checks.c01", "work", jobs, procs=16))
     ctx.merge([probe_known()])
     ctx.part.excluded["rename_nested (comparison/isnull/ceil/floor/trunc combined with another dataset-level operator)"] += 1
+    ctx.part.excluded["products of four or more Number factors (DECIMAL scale above 38)"] += 1
     ctx.assumptions = ["refvtl semantics grounded in the property statement, /repo/docs and the VTL 2.1 semantics reproduced by tests/ReferenceManual; shapes where those sources do not settle the answer "
                        "are not generated: round() on rounding ties, mod with negative operands or zero divisor, ln/sqrt/log outside their domain, substr start < 1 (DESIGN.md §4)",
                        "Number inputs have <= 4 decimals and magnitude <= 1e4; tolerance 1e-9 relative (1e-7 for / ln exp sqrt power log)"]
